@@ -118,4 +118,9 @@ def opOverlap (j : Json) : R Json := do
   let r := Dds.nonTerminalLeaves ps
   pure (Json.mkObj [("ok", .arr (r.map (fun p => Json.arr (p.map Json.str).toArray)).toArray)])
 
+/-- {"op":"normpath","p":"//a/b/"}: the one spelling of a path and its segments -/
+def opNormPath (j : Json) : R Json := do
+  let p ← fldStr j "p"
+  pure (Json.mkObj [("ok", .str (Dds.normPath p)), ("segs", .arr ((Dds.pathSegs p).map Json.str).toArray)])
+
 end Drv
